@@ -136,12 +136,10 @@ def _patch_seq(seq, diff, patch_item, joined=False):
                 vl = [vl] if vl else []
             if not isinstance(vl, list):
                 raise RefPatchError("valuelist is not a list")
-            if len(vl) == 0:
-                raise RefPatchError("empty addrange")
             out.extend(_plain(v) for v in vl)
         elif op == "removerange":
             ln = e["length"]
-            if isinstance(ln, bool) or not isinstance(ln, int) or ln < 1:
+            if isinstance(ln, bool) or not isinstance(ln, int) or ln < 0:
                 raise RefPatchError("bad removerange length %r" % (ln,))
             if key + ln > n:
                 raise RefPatchError("removerange beyond end")
